@@ -69,6 +69,22 @@ func (m *C14SliceGCMonitor) AfterPass(r *Runner, pv *PassView) error {
 
 func init() {
 	// a third party squats the name of a slice PKO deleted earlier, with other content and no owner
+	// tpDeleteSlice: a third party deletes one of the existing ObjectSlices (I = which)
+	extraOps["tpDeleteSlice"] = func(r *Runner, st Step) error {
+		keys := append(r.W.ListKeys(engine.PKOGroup, "ObjectSlice"), r.W.ListKeys(engine.PKOGroup, "ClusterObjectSlice")...)
+		if len(keys) == 0 {
+			return nil
+		}
+		k := keys[mod(st.I, len(keys))]
+		r.W.ActAs("thirdparty", func(c client.Client) {
+			if o := r.W.Store.Peek(k); o != nil {
+				if c.Delete(r.W.Ctx, engine.U(o)) == nil {
+					r.Labels["slice-deleted-by-third-party"] = true
+				}
+			}
+		})
+		return nil
+	}
 	extraOps["tpSquatSlice"] = func(r *Runner, st Step) error {
 		var names []string
 		seen := map[string]bool{}
